@@ -691,6 +691,7 @@ func dgrpWireTail(r *rng, o *out, do func(string) string, mode string, wire []by
 		for _, e := range extra {
 			do(e)
 		}
+		do("rebuild")
 		do("bytes")
 	}
 	probe(wire, "asbuilt")
